@@ -61,6 +61,8 @@ var c18Kinds = []c18Kind{
 	{"testmain-bare", "testmain-other", "", "_test/_testmain.go", false, "", "main.main"},
 	{"testmain-modern", "testmain-other", "", "_testmain.go", false, "", "main.main"},
 	{"nowhere", "none", "", "/nowhere/dir/x.go", false, "", "nowhere/dir.X"},
+	{"nowhere-under-slash-src", "none", "", "/src/app/cmd/main.go", false, "", "app/cmd.Main"},
+	{"nowhere-under-slash-src-stdlib-name", "none", "", "/src/fmt/print.go", false, "", "fmt.Println"},
 	{"tail-exists-no-src-component", "none", "", "/x/fmt/print.go", false, "", "fmt.Println"},
 	{"tail-exists-short-prefix", "none", "", "/net/http/server.go", false, "", "net/http.Serve"},
 	{"under-remote-gopath-no-src", "gp1", "other", "example.com/a/a.go", false, "", "example.com/a.A2"},
